@@ -37,8 +37,12 @@ import traceback
 import warnings
 
 ROOT = os.path.dirname(os.path.dirname(os.path.abspath(__file__)))
-EVIDENCE_DIR = os.path.join(ROOT, "evidence")
-REPLAY_DIR = os.path.join(ROOT, "replays")
+# VERIF_REPO / VERIF_OUT are for mutation experiments on scratch worktrees only (tools/mutants.py);
+# the registered commands never set them, so they always run /repo and write /verif/evidence.
+REPO = os.path.realpath(os.environ.get("VERIF_REPO", "/repo"))
+_OUT = os.environ.get("VERIF_OUT", ROOT)
+EVIDENCE_DIR = os.path.join(_OUT, "evidence")
+REPLAY_DIR = os.path.join(_OUT, "replays")
 KNOWN_FILE = os.path.join(ROOT, "known_findings.txt")
 PY = sys.executable
 
@@ -58,8 +62,8 @@ def assert_bound_to_repo():
     import fairlearn
 
     f = os.path.realpath(fairlearn.__file__)
-    if not f.startswith("/repo/"):
-        print("HARNESS-ERROR: fairlearn imported from %s, not /repo" % f)
+    if not f.startswith(REPO + "/"):
+        print("HARNESS-ERROR: fairlearn imported from %s, not %s" % (f, REPO))
         sys.exit(2)
 
 
